@@ -49,7 +49,8 @@ MkEv(a, ch, idx, d, c, res, out, ind, pin, s2, r2, w2, rinc2, n1, n2) ==
   [ a |-> a, ch |-> ch, idx |-> idx, d |-> d, c |-> c, res |-> res, out |-> out, ind |-> ind, pin |-> pin,
     dest |-> w2.dest, tree |-> w2.tree, salive |-> s2.alive, ralive |-> r2.alive, rinc |-> rinc2,
     nc2r |-> n1, nc2s |-> n2,
-    S |-> [until |-> SUntil(s2, C), can |-> SCan(s2)],
+    S |-> [until |-> SUntil(s2, C), can |-> SCan(s2), alive |-> s2.alive,
+           st |-> IF s2.alive THEN s2.st ELSE "Fin", txs |-> IF s2.alive THEN s2.txs ELSE "Term"],
     R |-> [until |-> RUntil(r2, C), can |-> RCan(r2)] ]
 
 \* compact form of an action for the emitted scripts: <<action, channel, index or seconds, command>>
